@@ -298,7 +298,7 @@ def conditions(tier):
         for which in ('find', 'rfind'):
             for (n, m) in ([(6, 1), (6, 2), (5, 0)] if q else [(6, 1), (6, 2), (8, 3), (5, 0), (10, 2), (12, 3)]):
                 add(f'C07.{which}[{c},n={n},m={m}]', h_find(c, n, m, 'off', which), f'all contents ({n}-bit data, {m}-bit pattern) x ' + W.format(n + 1), D_FIND, n=n, m=m)
-            for (n, m) in ([(9, 1), (16, 8), (25, 16)] if q else [(10, 1), (17, 1), (17, 2), (16, 8), (24, 8), (24, 16), (25, 8), (33, 16)]):
+            for (n, m) in ([(9, 1), (16, 8), (25, 16)] if q else [(9, 1), (10, 1), (16, 8), (17, 8), (24, 16), (25, 16)]):
                 for part in PARTS:
                     if q and (n, m) in ((16, 8), (25, 16)) and (part != 'pos' or which == 'rfind'):
                         continue
@@ -309,7 +309,7 @@ def conditions(tier):
                     f'all contents ({n}-bit data, {m}-bit pattern) x windows x every way of requesting no alignment (explicit False overrides the option)', D_FIND, n=n, m=m)
         for (n, m) in ([(5, 1), (6, 2), (4, 0)] if q else [(5, 1), (6, 2), (4, 0), (8, 1), (8, 3), (10, 2)]):
             add(f'C07.findall[{c},n={n},m={m}]', h_find(c, n, m, 'off', 'findall'), f'all contents ({n}-bit data, {m}-bit pattern) x ' + W.format(n + 1) + ' x count in [-1,3] or None', D_FIND, n=n, m=m)
-        for (n, m) in ([(9, 1)] if q else [(10, 1), (17, 1), (18, 2), (16, 8), (24, 8), (16, 0)]):
+        for (n, m) in ([(9, 1)] if q else [(9, 1), (16, 8), (17, 8), (16, 0)]):
             for part in (['none'] if q else PARTS):
                 add(f'C07.findall-aligned[{c},n={n},m={m},start={part}]', h_find(c, n, m, 'explicit' if q else 'on', 'findall', part), f'all contents ({n}-bit data, {m}-bit pattern) x start {part}, end x count x every way of requesting byte alignment', D_FIND, n=n, m=m)
         for (n, m) in ([(6, 2), (3, 0), (9, 1)] if q else [(6, 2), (3, 0), (9, 1), (12, 3), (17, 8)]):
@@ -328,7 +328,7 @@ def conditions(tier):
         for (n, m) in ([(4, 1), (4, 0)] if q else [(5, 1), (6, 2), (4, 0), (8, 1), (8, 3)]):
             for part in PARTS:
                 add(f'C07.split[{c},n={n},m={m},start={part}]', h_split(c, n, m, 'off', part), f'all contents ({n}-bit data, {m}-bit delimiter) x start {part}, end x count in [-1,3] or None', D_MISC, n=n, m=m)
-        for (n, m) in ([(9, 1)] if q else [(10, 1), (17, 1), (17, 8)]):
+        for (n, m) in ([(9, 1)] if q else [(9, 1), (17, 8)]):
             for part in (['none'] if q else PARTS):
                 add(f'C07.split-aligned[{c},n={n},m={m},start={part}]', h_split(c, n, m, 'explicit' if q else 'on', part), f'as above x every way of requesting byte alignment', D_MISC, n=n, m=m)
     # the match selection of replace (shared with C03's harness): successive non-overlapping matches from the left, every alignment request
